@@ -104,7 +104,8 @@ def gen_cases(rng, tier):
         R, C, th, tw = _sizes(rng, 10)
         nr, nc = (R - 1) // th + 1, (C - 1) // tw + 1
         ps = [[1 + a * th, 1 + b * tw] for a in range(nr) for b in range(nc)]
-        mode = rng.choice(['full', 'full', 'perm', 'hole', 'prefix', 'dup', 'shift', 'colmajor', 'empty'])
+        mode = rng.choice(['full', 'full', 'perm', 'hole', 'prefix', 'dup', 'shift', 'colmajor', 'empty',
+                           'drop_last', 'drop_last', 'drop_tail', 'drop_last_row', 'extra'])
         if mode == 'perm' and len(ps) > 1:
             i, j = rng.sample(range(len(ps)), 2)
             ps[i], ps[j] = ps[j], ps[i]
@@ -121,6 +122,14 @@ def gen_cases(rng, tier):
             ps = [[1 + a * th, 1 + b * tw] for b in range(nc) for a in range(nr)]
         elif mode == 'empty':
             ps = []
+        elif mode == 'drop_last' and len(ps) > 1:
+            ps = ps[:-1]
+        elif mode == 'drop_tail' and nc > 1:
+            ps = ps[:len(ps) - rng.randint(1, nc - 1)]
+        elif mode == 'drop_last_row' and nr > 1:
+            ps = ps[:-nc]
+        elif mode == 'extra':
+            ps = ps + [[ps[-1][0], ps[-1][1] + tw]] if rng.random() < 0.5 else ps + [list(ps[0])]
         cases.append({'kind': 'tiled_full', 'mode': mode, 'ps': ps, 'th': th, 'tw': tw})
     for _ in range(nrand // 2):
         R, C, th, tw = _sizes(rng, 7)
